@@ -111,7 +111,7 @@ def sections_with(text, option):
 
 
 @st.composite
-def config_case(draw, bases=None, generated=True, min_end=None, sampling_focus=False, small_sampling=False, g4_one_in=8,
+def config_case(draw, bases=None, generated=True, min_end=None, sampling_focus=False, small_sampling=False, g4_one_in=8, g5_one_in=8,
                 cells_only=False,
                 composites_only=False, max_events=(300, 1500)):
     """A configuration = shipped base + parameter edits (never wiring edits) + simulation seed + event budget."""
@@ -135,6 +135,33 @@ def config_case(draw, bases=None, generated=True, min_end=None, sampling_focus=F
                           repr(round(draw(st.floats(min_end[0], min_end[1])), 4))))
         return {"base": G4, "g4_N": N, "edits": [list(e) for e in edits], "seed": draw(st.integers(0, 2 ** 31)),
                 "events": draw(st.integers(max_events[0], max_events[1])), "cluster": "lattice"}
+    if generated and not composites_only and bases is None and draw(st.integers(0, g5_one_in - 1)) == 0:
+        # generated family G5 (cell system in a non-cubic box, 2-D or 3-D)
+        dim = draw(st.sampled_from([2, 3]))
+        lengths = [draw(st.sampled_from([1.0, 1.5, 2.0, 3.0])) for _ in range(dim)]
+        if len(set(lengths)) == 1:
+            lengths[draw(st.integers(0, dim - 1))] *= 1.5
+        per = [draw(st.integers(3, 5)) for _ in range(dim)]
+        N = draw(st.integers(2, 10))
+        edits = [("SingleIndependentActivePeriodicDirectionEndOfChainEventHandler", "chain_time",
+                  repr(round(draw(st.floats(0.2, 3.0)), 4))),
+                 ("FixedIntervalSamplingEventHandler", "sampling_interval", repr(round(draw(st.floats(0.05, 2.0)), 4)))]
+        if draw(st.booleans()):
+            edits.append(("SingleProcessMediator", "scheduler", draw(st.sampled_from(["heap_scheduler",
+                                                                                      "list_scheduler"]))))
+        if draw(st.booleans()):
+            edits.append(("SingleActiveCellOccupancy", "maximum_number_occupants", str(draw(st.sampled_from([1, 2, 0])))))
+        edits.append(("InitialChainStartOfRunEventHandler", "initial_direction_of_motion", str(draw(st.integers(0, dim - 1)))))
+        if min_end is not None:
+            edits.append(("FinalTimeEndOfRunEventHandler", "end_of_run_time",
+                          repr(round(draw(st.floats(min_end[0], min_end[1])), 4))))
+        case = {"base": G5, "g5": {"lengths": lengths, "per_side": per, "N": N,
+                                   "power": draw(st.sampled_from([1.0, 2.0, 6.0]))},
+                "edits": [list(e) for e in edits], "seed": draw(st.integers(0, 2 ** 31)),
+                "events": draw(st.integers(max_events[0], max_events[1]))}
+        if draw(st.booleans()):
+            case["cluster"] = draw(st.sampled_from([0.3, 0.6]))
+        return case
     text = shipped_text(base)
     edits = []
     gen = generated and draw(st.integers(0, 3)) > 0
@@ -241,7 +268,38 @@ def g4_text(N):
     return text
 
 
+G5 = "G5:cuboid_box_cells"
+
+
+def g5_text(lengths, per_side, N, power):
+    """Generated family G5: the shipped coulomb_atoms/cell_bounded.ini wiring in a NON-CUBIC box.  The periodic Coulomb
+    potentials exist for cubic boxes only, so the far-cell (cell-bounding) tagger is dropped from the tagger list and from
+    every create/trash list, and the nearby/surplus pair handler becomes the invertible TwoLeafUnitEventHandler with an
+    inverse-power potential (a short-range model: partners outside the nearby cells do not interact).  Everything else
+    - cell boundary, nearby, surplus, sampling, end of chain, end/start of run - is the shipped wiring."""
+    text = shipped_text("2018_JCP_149_064113/coulomb_atoms/cell_bounded.ini")
+    dim = len(lengths)
+    text = text.replace("    coulomb_cell_bounding (cell_bounding_potential_tagger),\n", "")
+    text = text.replace("coulomb_cell_bounding, ", "").replace(", coulomb_cell_bounding", "")
+    text = set_option(text, "Run", "setting", "hypercuboid_setting")
+    text += "\n[HypercuboidSetting]\nsystem_lengths = %s\nbeta = 1.0\ndimension = %d\n" % (
+        ", ".join(repr(x) for x in lengths), dim)
+    for sec in ("CoulombNearby", "CoulombSurplus"):
+        text = set_option(text, sec, "event_handler", "two_leaf_unit_event_handler")
+        text = set_option(text, sec, "number_event_handlers", str(max(1, N - 1)))
+    text += ("\n[TwoLeafUnitEventHandler]\npotential = inverse_power_potential\ncharge = electric_charge\n"
+             "\n[InversePowerPotential]\npower = %r\nprefactor = 0.05\n" % power)
+    text = set_option(text, "CuboidPeriodicCells", "cells_per_side", ", ".join(str(p) for p in per_side))
+    text = set_option(text, "RandomInputHandler", "number_of_root_nodes", str(N))
+    return text
+
+
 def materialise(case):
+    if case["base"] == G5:
+        text = g5_text(case["g5"]["lengths"], case["g5"]["per_side"], case["g5"]["N"], case["g5"]["power"])
+        for sec, opt, val in case["edits"]:
+            text = set_option(text, sec, opt, val)
+        return text
     if case["base"] == G4:
         text = g4_text(case["g4_N"])
         for sec, opt, val in case["edits"]:
